@@ -23,7 +23,7 @@ func (v val) get() string {
 func vs(kv ...string) []val {
 	var out []val
 	for i := 0; i+1 < len(kv); i += 2 {
-		out = append(out, val{kv[i], kv[i+1]})
+		out = append(out, val{class: kv[i], v: kv[i+1]})
 	}
 	return out
 }
@@ -130,10 +130,10 @@ var aclVals = vs("private", "private", "public-read", "public-read", "public-rea
 func enumVals(valid ...string) []val {
 	out := vs("empty", "", "garbage", "garbage-c20", "blank", " ", "long", strings.Repeat("e", 3000), "number", "1", "bool", "true", "nul", "a\x00b", "comma-list", strings.Join(valid, ","))
 	for _, v := range valid {
-		out = append(out, val{"valid-" + v, v}, val{"lower-" + v, strings.ToLower(v)})
+		out = append(out, val{class: "valid-" + v, v: v}, val{class: "lower-" + v, v: strings.ToLower(v)})
 	}
 	if len(valid) > 0 {
-		out = append(out, val{"upper", strings.ToUpper(valid[0])}, val{"padded", " " + valid[0] + " "})
+		out = append(out, val{class: "upper", v: strings.ToUpper(valid[0])}, val{class: "padded", v: " " + valid[0] + " "})
 	}
 	return out
 }
